@@ -1314,7 +1314,18 @@ ADVANCE_TO_APP_DATA:
 #ifdef USE_DTLS
         if (ACTV_VER(ssl, v_dtls_any))
         {
-            if (ssl->hsState != SSL_HS_FINISHED)
+            if (ssl->hsState != SSL_HS_FINISHED
+#  ifdef USE_STATELESS_SESSION_TICKETS
+                /* ... unless this is the first sign that the server accepted
+                   the session ticket we offered (RFC 5077 3.2: it need not
+                   say so in its ServerHello); that case is handled below
+                   as in TLS */
+                && !(ssl->sid != NULL &&
+                     ssl->sid->sessionTicketState == SESS_TICKET_STATE_IN_LIMBO &&
+                     (ssl->hsState == SSL_HS_CERTIFICATE ||
+                      ssl->hsState == SSL_HS_SERVER_KEY_EXCHANGE))
+#  endif
+                )
             {
                 /* Possible to get the changeCipherSpec message out of order */
                 psTraceIntInfo("Got out of order CCS: state %d\n", ssl->hsState);
